@@ -65,9 +65,13 @@ def model_order(rec):
     return [inv[int(x)] for x in out[0].split()]
 
 
-def cli_listing(rec, d, fmt, datafile=None):
+def cli_listing(rec, d, fmt, datafile=None, stale=False):
     base = os.path.join(d, "f_%s.txt" % fmt)
     open(base + ".audit.json", "w").write(json.dumps(strip(rec), indent=4))
+    ext0 = {"html": "html", "tex": "tex", "bash": "sh"}[fmt]
+    if stale:
+        # a longer report from an earlier conversion lies at the output path
+        open(base + ".audit." + ext0, "w").write(("STALE-REPORT-LINE proc=$(printf '%-32s' \"stale_task\") <strong>stale</strong> / <a name=\"staleid\"\n") * 4000)
     if datafile:
         # the data file lies next to its record, older or newer than it (touched, copied without -p, restored from an archive)
         open(base, "w").write("data\n")
@@ -96,8 +100,12 @@ def tree_case(args):
     problems = []
     try:
         datafile = rng.choice([None, "older", "newer", "newer"])
+        stale = rng.random() < 0.4
         for fmt in ("html", "tex", "bash"):
-            got, text = cli_listing(rec, d, fmt, datafile)
+            got, text = cli_listing(rec, d, fmt, datafile, stale)
+            if got is not None and "STALE-REPORT-LINE" in text:
+                problems.append(("stale-report-content", "audit2%s wrote its report over a longer one from an earlier conversion: the old report's tail is still in the file" % fmt))
+                continue
             if got is None:
                 problems.append(("cli-fails", "audit2%s: %s" % (fmt, text)))
                 continue
